@@ -58,6 +58,7 @@ type c12World struct {
 	viol   []explore.SchedV
 	nconn  int
 	banned map[string]bool // "k/c": k left or declined chat c and has not re-joined
+	deaf   [3]bool         // the client has stopped reading its socket
 }
 
 func (x *c12World) fail(clause, detail string) {
@@ -127,6 +128,9 @@ func (x *c12World) apply(op string, check bool) bool {
 		}
 	}
 	settle := func() { world.Quiet() }
+	if x.deaf[k] && p[0] != "off" {
+		return false // a client that does not read cannot see replies: it issues nothing further
+	}
 	switch p[0] {
 	case "on":
 		if x.on[k] {
@@ -150,10 +154,19 @@ func (x *c12World) apply(op string, check bool) bool {
 			}
 		}
 		expectKnown = false
+	case "deaf":
+		if !x.on[k] || x.deaf[k] {
+			return false
+		}
+		x.cl[k].Conn.Stalled = true
+		x.deaf[k] = true
+		expectKnown = false
 	case "off":
 		if !x.on[k] {
 			return false
 		}
+		x.cl[k].Conn.Stalled = false
+		x.deaf[k] = false
 		x.cl[k].Hangup()
 		settle()
 		x.on[k] = false
@@ -341,6 +354,9 @@ func (x *c12World) apply(op string, check bool) bool {
 	canon := func(ds []c12Delivery) []string {
 		var s []string
 		for _, d := range ds {
+			if x.deaf[d.to] {
+				continue // what a client that does not read would have received stays in flight
+			}
 			s = append(s, fmt.Sprintf("to%d: %s", d.to, clipMid(d.what)))
 		}
 		sort.Strings(s)
@@ -402,7 +418,7 @@ func (x *c12World) canon() string {
 		b = append(b, k)
 	}
 	sort.Strings(b)
-	fmt.Fprintf(&sb, " left%v", b)
+	fmt.Fprintf(&sb, " left%v deaf%v", b, x.deaf)
 	return sb.String()
 }
 
@@ -446,7 +462,7 @@ func c12Exec(hist []string) (res explore.SeqResult) {
 
 func c12Alphabet() []string {
 	return []string{
-		"on:0", "on:1", "on:2", "off:0", "off:1", "off:2",
+		"on:0", "on:1", "on:2", "off:0", "off:1", "off:2", "deaf:0", "deaf:2",
 		"pub:0:plain", "pub:0:emote", "pub:0:zero", "pub:0:long", "pub:0:edge", "pub:0:longemote", "pub:1:plain", "pub:1:long", "pub:2:plain",
 		"new:0:1", "new:0:2", "new:1:0", "new:1:2",
 		"inv:0:0:2", "inv:1:0:2", "inv:1:1:0",
